@@ -539,7 +539,8 @@ pub fn run_c10(rep: &Reporter, thorough: bool) -> Value {
         }
         for bd in bounds {
             let mut lens: Vec<usize> = (1..=64).collect();
-            lens.extend([1023, 1024, 1025, 33 * 1024]);
+            // around the read block (1 KiB) and the "large damaged section" threshold (64 KiB)
+            lens.extend([1023, 1024, 1025, 33 * 1024, 65535, 65536, 65537, 128 * 1024 + 5]);
             for zl in lens {
                 for t in [true, false] {
                     // zero tails with truncation disabled: a sample of lengths
@@ -575,7 +576,7 @@ pub fn run_c10(rep: &Reporter, thorough: bool) -> Value {
         "seed_images": seeds.len(),
         "seed_layouts": seeds.iter().map(|s| s.sig.clone()).collect::<Vec<_>>(),
         "outcomes": *st.outcomes.lock().unwrap(),
-        "explanation": "for every seed image (final directory of a real run, model journal attached): the newest chunk cut at EVERY byte position 0..=len and zero tails from EVERY record boundary (incl. 0) with lengths 1..64,1023,1024,1025,33792, each under truncate_incomplete_record true (all) and false (all cuts, sampled zero lengths); every damaged image is opened by the real RaftLog::open and compared with the state denoted by exactly the completely present records; then writes+flush and a second restart. 'states' = distinct damaged images, 'transitions' = recoveries executed.",
+        "explanation": "for every seed image (final directory of a real run, model journal attached): the newest chunk cut at EVERY byte position 0..=len and zero tails from EVERY record boundary (incl. 0) with lengths 1..64,1023,1024,1025,33792,65535,65536,65537,131077, each under truncate_incomplete_record true (all) and false (all cuts, sampled zero lengths); every damaged image is opened by the real RaftLog::open and compared with the state denoted by exactly the completely present records; then writes+flush and a second restart. 'states' = distinct damaged images, 'transitions' = recoveries executed.",
     })
 }
 
